@@ -91,6 +91,14 @@ class TripLock:
         self._held = True
         return True
 
+    def __enter__(self):
+        self.acquire()
+        return self
+
+    def __exit__(self, *a):
+        self.release()
+        return False
+
     def release(self):
         if not self._held:
             raise RuntimeError("release unlocked lock")
@@ -345,6 +353,9 @@ def run_episode(ep: Episode) -> Result:
                 pkt = await protocol.send_cmd(cmd, priority=Priority(c["prio"]), qos=qos)
                 res.outcomes[i] = (loop.time(), "ok", str(pkt))
             except Exception as e:  # noqa: BLE001
+                res.outcomes[i] = (loop.time(), "err", type(e).__name__ + ":" + ",".join(k.__name__ for k in type(e).__mro__[1:4]))
+            except asyncio.CancelledError as e:
+                # nobody cancelled this caller: the cancellation comes out of send_cmd itself
                 res.outcomes[i] = (loop.time(), "err", type(e).__name__ + ":" + ",".join(k.__name__ for k in type(e).__mro__[1:4]))
 
         tasks = [loop.create_task(caller(i, c)) for i, c in enumerate(ep.calls)]
